@@ -30,6 +30,10 @@ type codecNum struct {
 	base int
 }
 
+// codecDec20 is the 20-digit zero-padded decimal rendering of a uint64 ("%020d"):
+// it is order-isomorphic to the number, so two such elements compare like the numbers.
+type codecDec20 struct{ t *smt.Term }
+
 type codecBlob struct {
 	kind string // "json", "proto", "hex"
 	t    types.Type
@@ -293,6 +297,12 @@ func (in *interp) deepEqual(a, b value, seen map[[2]*value]bool) value {
 			return false
 		}
 		return in.deepEqual(a.v, bb.v, seen)
+	case codecDec20:
+		bb, ok := b.(codecDec20)
+		if !ok {
+			return false
+		}
+		return mkval(in.ctx.Eq(a.t, bb.t), types.Bool)
 	case hole:
 		return true
 	case *channel:
